@@ -16,6 +16,12 @@ def build(seed):
         fs.files = {p: c for p, c in fs.files.items() if "/" not in p}
         if not fs.files:
             fs.files["only.txt"] = "only"
+    force = None
+    if rnd.random() < 0.12:
+        # an entry whose name begins with "._" (resource-fork companions) is an entry like any other
+        d0 = rnd.choice(sorted(fs.dirs))
+        force = (d0 + "/" if d0 else "") + "._A001.mov"
+        fs.files[force] = "resource fork"
     tree = gen.tree_dict(fs)
     pats = rnd.sample(["*.tmp", "*.bak", "tmp", "*.mov"], 1) if rnd.random() < 0.2 else []
     ops = []
@@ -49,6 +55,8 @@ def build(seed):
     if nested_pat and rnd.random() < 0.6:
         kind = "add_outside_nested"
     files = sorted(fs.files)
+    if force and kind != "add_outside_nested":
+        files, kind = [force], rnd.choice(["alter", "remove", "bitrot"])
     rootfiles = [p for p in files if "/" not in p]
     if kind == "alter" and files:
         p = rnd.choice(files)
